@@ -3,10 +3,14 @@
 (* path form, x provider directory name (plain, dashed, digit) x consumer file depth x target renamed *)
 (* x a same-named type in a third crate. Prints the file every type must be written to.                *)
 EXTENDS Workspace, TLC, Json
-CONSTANTS Forms, Dirs, Depths
+CONSTANTS Forms, Dirs, Depths, Roots
 VARIABLE c
 \* dup: a third crate defines a type with the same Rust identifier; dup_renamed: that one carries its own serde(rename)
-Init == c \in { r \in [form : Forms, dir : Dirs, depth : Depths, renamed : BOOLEAN, dup : BOOLEAN, dup_renamed : BOOLEAN] : r.dup_renamed => r.dup }
+\* root: where the workspace lies: plain (no ancestor directory is called src) / under_src (the whole workspace lies below a
+\* directory called src, as in ~/src/project) / under_src_twice. The crate of a file does not depend on it (Workspace!CrateDirOf).
+Init == c \in { r \in [form : Forms, dir : Dirs, depth : Depths, renamed : BOOLEAN, dup : BOOLEAN, dup_renamed : BOOLEAN, root : Roots] :
+                  /\ r.dup_renamed => r.dup
+                  /\ r.root # "plain" => (r.depth = "lib" /\ ~r.dup) }
 Next == UNCHANGED c
 
 DirChars(d) == CASE d = "alpha" -> <<"a","l","p","h","a">>
@@ -16,6 +20,12 @@ DirChars(d) == CASE d = "alpha" -> <<"a","l","p","h","a">>
 Consumer == <<"c","o","n","s","u","m","e","r">>
 Third == <<"t","h","i","r","d">>
 Langs == {"typescript", "kotlin", "swift", "scala", "go", "python"}
+\* model-level check of CrateDirOf on the paths the harness will create
+RootPath == CASE c.root = "plain" -> <<"tmp", "ws">> [] c.root = "under_src" -> <<"tmp", "src", "ws">> [] OTHER -> <<"src", "tmp", "src", "ws">>
+DepthPath == IF c.depth = "lib" THEN <<"lib.rs">> ELSE IF c.depth = "deep" THEN <<"a", "b.rs">> ELSE <<"x", "y", "z", "w.rs">>
+CrateRule == /\ CrateDirOf(RootPath \o <<"consumer", "src">> \o DepthPath) = "consumer"
+             /\ CrateDirOf(RootPath \o <<c.dir, "src", "m.rs">>) = c.dir
+             /\ CrateDirOf(<<"tmp", "lib.rs">>) = ""
 SameCrate == c.form \in {"crate_path", "super_path", "self_path", "use_crate"}
 Emit == PrintT(<<"REPLAY", ToJson([case |-> c,
     files |-> [l \in Langs |-> [provider |-> FileName(l, DirChars(c.dir)), consumer |-> FileName(l, Consumer), third |-> FileName(l, Third)]],
